@@ -59,8 +59,14 @@ def layerCmd (f : List String) : Option String :=
     let fits := fitsB o its
     let inDomain := fits || o.maxPos.isNone
     let delta := displacement L / refWallWeight
-    let xref := if its.isEmpty then [] else refSolveSorted o its
-    let c02 := allClose (1/2 + tau + delta) pos xref && (xs.isEmpty || allClose (tau + delta) xs xref)
+    -- the optimum is taken over placements in the order of the TARGETS (stable for ties: the property's order), not in whatever order the
+    -- implementation chose: positions are compared item by item through the original indices
+    let msorted := (sortItems items.zipIdx)
+    let xrefM := if msorted.isEmpty then [] else refSolveSorted o (msorted.map (·.1))
+    let refOf (i : Nat) : Rat := (((msorted.map (·.2)).zip xrefM).find? (fun p => p.1 == i)).map (·.2) |>.getD 0
+    let xref := order.map refOf
+    let c02 := order.length == items.length &&
+      allClose (1/2 + tau + delta) pos xref && (xs.isEmpty || allClose (tau + delta) xs xref)
     let c03 := if fits then insideB o (1/2 + delta + tau) L else c01
     -- the same predicates on the model's own output (must hold by the theorems)
     let mits := m.order.map (fun i => items.getD i { target := 0, width := 0, stub := false })
